@@ -60,6 +60,16 @@ def trivially_joins(f, a, b, limit=8):
     a value between locals (`return regs` spelled as `_0 = regs; dest = move _0`), gotos and drops — and both
     ways move the same values (so an early stop yields what exhaustion yields)"""
     dataless = set()
+    flags = set()
+
+    def mentions(x, ls):
+        if isinstance(x, dict):
+            if 'l' in x and 'p' in x and x['l'] in ls:
+                return True
+            return any(mentions(v, ls) for v in x.values())
+        if isinstance(x, list):
+            return any(mentions(v, ls) for v in x)
+        return False
 
     def chain(x):
         seen = [x]
@@ -77,6 +87,9 @@ def trivially_joins(f, a, b, limit=8):
                 dty = f.locals[st['pl']['l']]['ty']
                 if not st['pl']['p'] and (dty == '()' or ('ControlFlow<' in dty and dty.rstrip('>').endswith(('<()', ', ()')))):
                     dataless.add(st['pl']['l'])      # the data-less outcome of a try_for_each: fine if nobody branches on it later
+                    continue
+                if not st['pl']['p'] and dty == 'bool' and rv['r'] == 'use' and rv['a']['o'] == 'const':
+                    flags.add(st['pl']['l'])         # `let _stopped = (1..=n).any(..)`: which way the loop was left, as a flag
                     continue
                 if not st['pl']['p'] and rv['r'] == 'discr' and rv['pl']['l'] in dataless:
                     dataless.add(st['pl']['l'])
@@ -96,6 +109,23 @@ def trivially_joins(f, a, b, limit=8):
         return None
     if sorted(set(ma)) != sorted(set(mb)):
         return None
+    if flags:
+        # the flag is never read: not after the join, and not on the way to it
+        seen, todo = {common[0]}, [common[0]]
+        while todo:
+            x = todo.pop()
+            for y in f.succ[x]:
+                if y not in seen and y in f.reach:
+                    seen.add(y)
+                    todo.append(y)
+        for x in seen | set(ca) | set(cb):
+            blk = f.blocks[x]
+            for st in blk['stmts']:
+                if st['s'] == 'assign' and (mentions(st['rv'], flags) or (st['pl']['p'] and mentions(st['pl'], flags))):
+                    return None
+            t = blk['term']
+            if t['t'] != 'drop' and mentions({k: v for k, v in t.items() if k != 'dest'}, flags):
+                return None
     if dataless:
         # nothing after the join may branch on which way the loop was left
         seen, todo = {common[0]}, [common[0]]
